@@ -415,8 +415,8 @@ def tag(case, f):
 
 
 SUBS = [
-    Sub('labels', label_cases(), check_labels, quick=800, thorough=16000, tag=tag, rule='set_index/unset_index/relabel_shift round trips keep every cell in its row'),
-    Sub('stack', stack_cases(), check_stack, quick=400, thorough=8000, tag=tag, rule='pivot_stack then pivot_unstack restores all cells'),
-    Sub('pivot', pivot_cases(), check_pivot, quick=800, thorough=24000, tag=tag, rule='pivot vs group-aggregate reference'),
-    Sub('join', join_cases(), check_join, quick=1000, thorough=32000, tag=tag, rule='joins vs nested-loop reference (multisets of value rows)'),
+    Sub('labels', label_cases(), check_labels, quick=3200, thorough=16000, tag=tag, rule='set_index/unset_index/relabel_shift round trips keep every cell in its row'),
+    Sub('stack', stack_cases(), check_stack, quick=1600, thorough=8000, tag=tag, rule='pivot_stack then pivot_unstack restores all cells'),
+    Sub('pivot', pivot_cases(), check_pivot, quick=3200, thorough=24000, tag=tag, rule='pivot vs group-aggregate reference'),
+    Sub('join', join_cases(), check_join, quick=4000, thorough=32000, tag=tag, rule='joins vs nested-loop reference (multisets of value rows)'),
 ]
